@@ -9,6 +9,9 @@ depth 1   every condition of the value tables below in EVERY spelling: every key
           + operator-like literals (NE Ne OR AND NOT TO EQ LT ... in upper / mixed case): every string
           keyword alias x every such word alone, with == != eq ne, reversed, quoted and bare, and as
           first / middle / last element of implicit lists; and the same next to every connective.
+          + quoted literals containing the other quote character ("O5'", "H5''", 'H5"', ...): alone,
+          == != eq ne in both orders, in implicit lists (any position, with decoys O5 C3 H5), as =~
+          patterns; and next to every connective.
 depth 2   every tree  leaf | not leaf | leaf conn leaf  over the representative leaves REPS2
           (one per syntactic class and operator spelling) x every connective spelling
           (and && or ||, not !), rendered flat / minimally parenthesised / fully parenthesised /
@@ -81,6 +84,7 @@ def depth1():
                 for st in ("single", "double"):
                     out.append(("%s =~ %s" % (a, q(rx, st)), ("regex", c, rx), "regex"))
     out += oplike_depth1()
+    out += primed_depth1()
     for c, (vals, impl, lists, ranges, rvals) in NUM_VALUES.items():
         for a in R.NUM_KW[c]:
             for v in vals:
@@ -127,11 +131,11 @@ def oplike_depth1():
                         out.append(("%s %s %s" % (a, sp, w), ("cmp", c, op, w), "oplike-cmp"))
                     out.append(("%s %s %s" % (a, R.CMP_OPS[op][0], q(w, "single")), ("cmp", c, op, w), "oplike-cmp"))
                 out.append(("%s == %s" % (w, a), ("cmp", c, "==", w), "oplike-rcmp"))
-                for lst in ((w, p1), (p1, w), (p1, w, p2), (w, p1, p2), (p1, p2, w)):
+                for n, lst in enumerate(((w, p1), (p1, w), (p1, w, p2), (w, p1, p2), (p1, p2, w))):
                     out.append(("%s %s" % (a, " ".join(lst)), ("list", c, lst), "oplike-list"))
-                    # quoted operator-like word, bare partners
-                    out.append(("%s %s" % (a, " ".join(q(v, "single") if v == w else v for v in lst)),
-                                ("list", c, lst), "oplike-list"))
+                    if n < 2:   # quoted operator-like word, bare partner
+                        out.append(("%s %s" % (a, " ".join(q(v, "single") if v == w else v for v in lst)),
+                                    ("list", c, lst), "oplike-list"))
     return out
 
 
@@ -156,6 +160,64 @@ def oplike_trees(seed):
             out += [("not", sp, x) for x in xs]
         out += bins(xs, partners) + bins(partners, xs)
     return out
+
+
+# ------------------------------------------------------------------------------------------------
+# quoted literals whose text begins or ends with the OTHER quote character: primed nucleic-acid
+# atom names ("O5'", "H5''").  The fixture holds O5' C5' C3' H5' H5'' and the decoys O5 C3 H5.
+# ------------------------------------------------------------------------------------------------
+PRIMED = ["O5'", "C5'", "C3'", "H5'", "H5''", 'H5"', "'H5", '"O5']      # the last three name no atom of the fixture
+PRIMED_REGEX = ["O5'", "C[35]'", "H5''", ".*'"]
+
+
+def qq(v):
+    """quote a literal with the delimiter it does not contain"""
+    return '"%s"' % v if '"' not in v else "'%s'" % v
+
+
+def primed_depth1():
+    out = []
+    c, a = "name", "name"
+    for w in PRIMED:
+        L = qq(w)
+        out.append(("%s %s" % (a, L), ("cmp", c, "==", w), "primed-impl"))
+        for op in ("==", "!="):
+            for sp in R.CMP_OPS[op]:
+                out.append(("%s %s %s" % (a, sp, L), ("cmp", c, op, w), "primed-cmp"))
+                out.append(("%s %s %s" % (L, sp, a), ("cmp", c, op, w), "primed-rcmp"))
+        for lst in ((w, "O5"), ("O5", w), ("CA", w, "H5"), (w, "C3", "H5"), ("C3", "H5", w)):
+            out.append(("%s %s" % (a, " ".join(qq(v) if v == w else v for v in lst)), ("list", c, lst), "primed-list"))
+            out.append(("%s %s" % (a, " ".join(qq(v) for v in lst)), ("list", c, lst), "primed-list"))
+        for w2 in PRIMED:
+            if w2 != w:
+                out.append(("%s %s %s" % (a, L, qq(w2)), ("list", c, (w, w2)), "primed-list"))
+    for rx in PRIMED_REGEX:
+        out.append(("%s =~ %s" % (a, qq(rx)), ("regex", c, rx), "primed-regex"))
+    # the other string keywords: values without a decoy, still have to be read verbatim
+    for c2 in ("type", "resname", "rescode", "segment_id"):
+        for a2 in R.STR_KW[c2]:
+            for w in ("C'", "'C"):
+                out.append(("%s %s" % (a2, qq(w)), ("cmp", c2, "==", w), "primed-impl"))
+                out.append(("%s != %s" % (a2, qq(w)), ("cmp", c2, "!=", w), "primed-cmp"))
+    return out
+
+
+def primed_trees(seed):
+    """primed literals next to every connective and under not"""
+    names = {}
+    for tab in (R.BOOL_KW, R.STR_KW):
+        for c, als in tab.items():
+            names[c] = als[seed % len(als)]
+    partners = leaves([("resname=DC", "%s DC" % names["resname"]), ("name=O5", "name O5"), ("protein", names["protein"])])
+    xs = []
+    for w in PRIMED[:5]:
+        xs += [("name=%s" % w, "name %s" % qq(w)), ("name in %s,H5" % w, "name %s H5" % qq(w)),
+               ("name in C3,%s" % w, "name C3 %s" % qq(w)), ("name!=%s" % w, "name != %s" % qq(w))]
+    xs = leaves(xs)
+    out = []
+    for sp in R.NOT_SP:
+        out += [("not", sp, x) for x in xs]
+    return out + bins(xs, partners) + bins(partners, xs)
 
 
 # ------------------------------------------------------------------------------------------------
